@@ -159,6 +159,8 @@ def point_block(block):
                     iso.convert_loading(unit_to='mol')
                 elif history == 'used+convert_pressure(unit_to=kPa)':
                     iso.convert_pressure(unit_to='kPa')
+                elif history == 'used+convert_material(unit_to=kg)':
+                    iso.convert_material(unit_to='kg')
                 ps, ls = iso.data_raw.cols['pressure'], iso.data_raw.cols['loading']
             # the query is given in the requested representation; data in that representation:
             fp = sx.SymReal(T.U_P['bar'] / T.U_P[unit_kw['pressure_unit']]) if 'pressure_unit' in unit_kw else sx.SymReal(1)
@@ -240,7 +242,7 @@ def point_cfgs(tier):
                 out.append((n, w, fill, {}))
         if n == 3:
             for w in ('below', 'between:0', 'between:1', 'at_last'):
-                for h in ('used+convert_loading(unit_to=mol)', 'used+convert_pressure(unit_to=kPa)', 'desorption_branch_stored_high_to_low', 'origin_point_measured'):
+                for h in ('used+convert_loading(unit_to=mol)', 'used+convert_pressure(unit_to=kPa)', 'used+convert_material(unit_to=kg)', 'desorption_branch_stored_high_to_low', 'origin_point_measured'):
                     out.append((n, w, None, {}, h))
         for w in ('below', 'between:0', 'at_last'):
             out.append((n, w, None, {'pressure_unit': 'Pa'}))
